@@ -295,6 +295,9 @@ class Translator:
         isref = qt.strip().endswith('&')
         nm = self.fresh_name(c['name'])
         static = c.get('storageClass') == 'static'
+        if static and qt.strip().startswith('const ') and not isref:
+            static = False     # a const static with an initialiser is immutable: it always holds its initial value
+            self.count('R16.const_static')
         inner = [x for x in c.get('inner', []) if x.get('kind') not in ('FullComment',)]
         init = None
         if inner:
